@@ -5,7 +5,7 @@ from core import nats, exc_kind, safe_check
 from props.c02 import bits, _arr, DTYPES, MAXV, gen_pair, rand_sorted, gen_pair_wide, fit_dtype, BOUNDARY
 
 PROPS = ('GambitV.Props.C15', 'GambitV.C15')
-TIE = [('GambitV.Tie.Metric', 'GambitV.Tie.Metric'), ('GambitV.Tie.PyMetric', 'GambitV.Tie.Py')]
+TIE = [('GambitV.Tie.Metric', 'GambitV.Tie.Metric'), ('GambitV.Tie.PyMetric', 'GambitV.Tie.Py'), ('GambitV.Tie.PyBindMetric', 'GambitV.Tie.Py'), ('GambitV.Tie.PyBulk', 'GambitV.Tie.Py')]
 RULE = ('triples of k-mer sets: exhaustive over all 32^3 triples of subsets of a 5-element universe; random structured triples '
         '(sizes <= 60, occasionally <= 2000) in mixed integer widths, the five distances also taken through the bulk interfaces (list refilled in place, '
         'unordered index selections, a SignatureArray window of a larger values array); common-new-element additions; the C15-F1 witness. '
